@@ -5,6 +5,7 @@ import (
 	"sort"
 	"strconv"
 	"strings"
+	"time"
 )
 
 // Typed reads: the root is unpacked into a struct type drawn from the model's values, so that
@@ -18,6 +19,7 @@ var (
 	tInt64   = reflect.TypeOf(int64(0))
 	tBool    = reflect.TypeOf(false)
 	tFloat64 = reflect.TypeOf(float64(0))
+	tDur     = reflect.TypeOf(time.Duration(0))
 )
 
 // rootValue assembles the model's value of the whole root from the outcomes of its settings.
@@ -58,6 +60,14 @@ func (e *E) typeFor(v *Val, depth int) reflect.Type {
 	case VStr:
 		return []reflect.Type{tString, tIface}[t.Choose(2, "typed-str")]
 	case VInt:
+		// (a number means seconds for a time.Duration target)
+		if v.I > -1000000 && v.I < 1000000 {
+			if ty := []reflect.Type{tInt64, tIface, tDur}[t.Choose(3, "typed-int")]; ty != tDur {
+				return ty
+			}
+			e.R.Probe("varexp: a number unpacked into a time.Duration target")
+			return tDur
+		}
 		return []reflect.Type{tInt64, tIface}[t.Choose(2, "typed-int")]
 	case VBool:
 		return []reflect.Type{tBool, tIface}[t.Choose(2, "typed-bool")]
@@ -140,6 +150,9 @@ func generic(v reflect.Value) interface{} {
 			l[i] = generic(v.Index(i))
 		}
 		return l
+	}
+	if v.Type() == tDur {
+		return int64(v.Interface().(time.Duration) / time.Second)
 	}
 	return v.Interface()
 }
